@@ -40,7 +40,12 @@ def make_async_loader(templates: dict):
 
         async def get_source_async(self, env, template_name, *, context=None, **kwargs):
             await pause()
-            return self.get_source(env, template_name, context=context, **kwargs)
+            src = self.get_source(env, template_name, context=context, **kwargs)
+
+            async def uptodate():           # a cached template asks this before it is served again: one more await point
+                await pause()
+                return True
+            return TemplateSource(src.source, src.name, uptodate, src.matter)
 
     return PausingLoader()
 
@@ -231,14 +236,21 @@ def run_schedules(chk: Check, tier: str) -> None:
                         chk.violation(f"schedule-dependent-output:task{ti}:caching={caching}",
                                       {"tasks": [TASK_POOL[t][0] for t in order], "schedule": sched,
                                        "want": want, "got": results.get(slot)})
-    # loader-level tasks (own globals per caller, failing loads): all pairs, all schedules
+    # loader-level tasks (own globals per caller, failing loads): all pairs, all schedules; with a cold cache
+    # and with the template already cached by an earlier caller with other globals (the hit awaits `uptodate`)
+    def warm_env():
+        env = mk_env(True)
+        run_solo(lambda: _load_render(env, "greet", {"who": "Earlier"}))
+        return env
+
     lsolo = {}
-    for caching in (False, True):
+    for caching in (False, True, "warm"):
         for i, mk in enumerate(LOADER_TASKS):
-            lsolo[(i, caching)] = run_solo(mk(mk_env(caching)))
-    for caching in (False, True):
+            lsolo[(i, caching)] = run_solo(mk(warm_env() if caching == "warm" else mk_env(caching)))
+    for caching in (False, True, "warm"):
         for i, j in itertools.combinations_with_replacement(range(len(LOADER_TASKS)), 2):
-            ni, nj = lsolo[(i, False)][1], lsolo[(j, False)][1]
+            base = "warm" if caching == "warm" else False
+            ni, nj = lsolo[(i, base)][1], lsolo[(j, base)][1]
             shape = tuple(sorted((ni, nj), reverse=True))
             order = (i, j) if ni >= nj else (j, i)
             if shape not in schedules:
@@ -255,7 +267,7 @@ def run_schedules(chk: Check, tier: str) -> None:
                 finally:
                     r.cleanup()
             for sched in schedules.get(shape, []):
-                env = mk_env(caching)
+                env = warm_env() if caching == "warm" else mk_env(caching)
                 facs = {slot: LOADER_TASKS[ti](env) for slot, ti in enumerate(order, start=1)}
                 results = run_schedule(facs, list(sched))
                 n += 1
@@ -314,6 +326,37 @@ def _judge_msg(rec, opts):
 
 _MOPTS: dict = {}
 
+HOSTILE = "<b>Fish & 'Chips'</b>"
+
+
+def _judge_inherit(rec, opts):
+    """Inheritance chains of LiquidInherit, sync against async, with and without auto escape and with markup
+    in the data (block.super is rendered output: it must not be escaped a second time in either mode)."""
+    out = []
+    templates = {replay.conc(n): replay.conc(t) for n, t in rec["templates"]}
+    main = replay.conc(rec["main"])
+    args = {k: (HOSTILE if isinstance(v, str) else v) for k, v in replay.layer(rec["data"][0]).items()}
+    for esc in (False, True):
+        cfg = dict(rec["cfg"], autoescape=esc)
+        res = {}
+        for mode in ("sync", "async"):
+            env = replay.make_env(cfg, loader=make_async_loader(dict(templates)))
+
+            def go():
+                if mode == "sync":
+                    return env.get_template(main).render(**args)
+
+                async def co():
+                    t = await env.get_template_async(main)
+                    return await t.render_async(**args)
+                return drive(co)
+            res[mode] = outcome_of(go)
+        a, b = res["sync"], res["async"]
+        if a != b:
+            shape = "entered-via-" + main if main in ("inc", "ren") else ("mixed-chains" if main == "mix1" else "chain")
+            out.append((f"sync-async-differ:inherit:{shape}:autoescape={esc}", {"sync": a, "async": b}))
+    return out
+
 
 def check(tier: str) -> int:
     chk = Check("C03", tier)
@@ -344,6 +387,17 @@ def check(tier: str) -> int:
             gen.replay_file(chk, r.workdir / "out.ndjson", "harness.c03", "_judge_msg")
         finally:
             r.cleanup()
+    depth = 3 if tier == "thorough" else 2
+    r = tlc.run("LiquidInherit", tlc.cfg_text(constants={"MaxDepth": str(depth), "Focus": '"async-inherit"'}, invariants=["Export"]),
+                tag="async-inherit", extra_files={"concrete.json": gen.CONCRETE}, timeout=7000)
+    try:
+        if r.error:
+            chk.machinery_error = r.error
+        else:
+            chk.tlc(r, f"inheritance chains of depth <= {depth} sync vs async, auto escape off and on, markup in the data")
+            gen.replay_file(chk, r.workdir / "out.ndjson", "harness.c03", "_judge_inherit")
+    finally:
+        r.cleanup()
     run_schedules(chk, tier)
     return chk.finish()
 
